@@ -68,7 +68,7 @@ def run_job(contract_module, cls_name, shape_idx, tier="quick", max_paths=None, 
         allowed = tuple(I.getattr(C, "allowed_raises", ()))
         if f_setup is not None:
             I.call(f_setup, [I, sh], {})
-        hooks = I.getattr(C, "__pyvc_hooks__", None)
+        install_modular(I, C, qual)
         n_returning = 0
         while True:
             ctx.begin_path()
@@ -83,7 +83,7 @@ def run_job(contract_module, cls_name, shape_idx, tier="quick", max_paths=None, 
                     r = I.call(f_req, [sh, a], {})
                     if r is not None:
                         ctx.assume(I.cond_term(r))
-                ghost = {}
+                I.outer_call_pending = True
                 try:
                     if f_run is not None:
                         ret = I.call(f_run, [sh, a], {})
@@ -116,6 +116,9 @@ def run_job(contract_module, cls_name, shape_idx, tier="quick", max_paths=None, 
                         for ob in ctx.pending[n0:]:
                             ob.kind = "canary"
                 ctx.commit_path(outcome)
+            except LoopCut:
+                ctx.commit_path("loop-cut")
+                n_returning += 1
             except PathAbort:
                 ctx.path_outcomes.append((ctx.path_no, "infeasible"))
             except PyRaise as pr:
@@ -147,6 +150,117 @@ def run_job(contract_module, cls_name, shape_idx, tier="quick", max_paths=None, 
         res["trace"] = traceback.format_exc()[-3000:]
     res["secs"] = time.time() - t0
     return res
+
+
+class LoopCut(Exception):
+    """end of an arbitrary loop iteration after re-establishing the invariant"""
+
+
+def _for_ordinals(fnode):
+    out = {}
+    n = 0
+    for node in ast.walk(fnode):
+        if isinstance(node, (ast.For, ast.While)):
+            pass
+    # deterministic pre-order numbering
+    def rec(stmts):
+        nonlocal n
+        for st in stmts:
+            if isinstance(st, (ast.For, ast.While)):
+                out[id(st)] = n
+                n += 1
+            for fld in ("body", "orelse", "finalbody", "handlers"):
+                sub = getattr(st, fld, None)
+                if isinstance(sub, list):
+                    rec([x for x in sub if isinstance(x, ast.stmt)] + [y for x in sub if isinstance(x, ast.ExceptHandler) for y in x.body])
+            if isinstance(st, ast.Match):
+                for c in st.cases:
+                    rec(c.body)
+    rec(fnode.body)
+    return out
+
+
+def _assigned_names(stmts):
+    names = set()
+    for st in stmts:
+        for node in ast.walk(st):
+            if isinstance(node, ast.Name) and isinstance(node.ctx, ast.Store):
+                names.add(node.id)
+    return names
+
+
+def install_modular(I, C, target_qual):
+    """modular call contracts, yield hooks and loop cuts declared by a contract class"""
+    from .builtins import SymRange
+    from .interp import BreakSig, ContinueSig, _MISSING
+
+    modular = I.getattr(C, "modular", None) or {}
+    for q, handler in modular.items():
+        def make(q, handler):
+            def h(interp, f, args, kwargs):
+                if q == target_qual and getattr(interp, "outer_call_pending", False):
+                    interp.outer_call_pending = False
+                    return _MISSING
+                local = interp.bind_args(f, args, kwargs)
+                return interp.call(handler, [local], {})
+            return h
+        I.contracts[q] = make(q, handler)
+    on_yield = I.getattr(C, "on_yield", None)
+    on_yield_from = I.getattr(C, "on_yield_from", None)
+    if on_yield is not None:
+        def yh(interp, frame, v):
+            if frame.func is not None and frame.func.qualname == target_qual:
+                interp.call(on_yield, [frame.args0, v], {})
+        I.yield_hook = yh
+    if on_yield_from is not None:
+        def yfh(interp, frame, v):
+            if frame.func is not None and frame.func.qualname == target_qual:
+                interp.call(on_yield_from, [frame.args0, v], {})
+                return True
+            return False
+        I.yield_from_hook = yfh
+    loops = I.getattr(C, "loops", None)
+    if loops:
+        def lh(interp, st, it, scope):
+            if not isinstance(it, SymRange):
+                return False
+            fr = scope.frame
+            if fr is None or fr.func is None or fr.func.qualname != target_qual:
+                raise Unsupported("symbolic-range loop outside the function under contract")
+            ords = getattr(fr.func, "_loop_ords", None)
+            if ords is None:
+                ords = fr.func._loop_ords = _for_ordinals(fr.func.node)
+            k = ords.get(id(st))
+            spec = loops.get(k)
+            if spec is None:
+                raise Unsupported(f"loop #{k} over a symbolic range has no invariant")
+            ctx = interp.ctx
+            env0 = dict(fr.args0)
+            # 1. establish
+            interp.call(spec["inv"], [env0, dict(scope.vars), "established on entry"], {})
+            # 2. havoc the names assigned in the body, 3. assume the invariant
+            assigned = sorted(_assigned_names(st.body) & set(scope.vars))
+            new = interp.call(spec["havoc"], [env0, dict(scope.vars), assigned], {})
+            from .values import Opaque
+            for nm in assigned:
+                if nm not in new:
+                    scope.vars[nm] = Opaque("havoced:" + nm)
+            scope.vars.update(new)
+            interp.call(spec["assume"], [env0, dict(scope.vars)], {})
+            n = it._len(interp)
+            # 4. either one more (arbitrary) iteration, then cut; or the loop is done
+            if ctx.decide(ops.zbool(interp.compare("Gt", n, 0))) and ctx.decide(z3.Bool(f"loop{k}!iterate")):
+                interp.assign(st.target, ctx.fresh("iter"), scope)
+                try:
+                    interp.exec_block(st.body, scope)
+                except ContinueSig:
+                    pass
+                except BreakSig:
+                    return True
+                interp.call(spec["inv"], [env0, dict(scope.vars), "preserved by an iteration"], {})
+                raise LoopCut()
+            return True
+        I.loop_hook = lh
 
 
 def _fmt(ob):
